@@ -770,10 +770,32 @@ class Interp:
             return res
 
         out = []
+        hooks = getattr(self, "call_hooks", {})
+        if fname in hooks:
+            for pos, kw, p in eval_args(path):
+                out.append((hooks[fname](pos, kw), p))
+            return out
         # method calls on abstract receivers
         if isinstance(e.func, ast.Attribute):
             for recv, p0 in self.eval(e.func.value, path):
                 for pos, kw, p in eval_args(p0):
+                    if isinstance(recv, Rec):
+                        c = self.class_of(recv.cls)
+                        m = c.method(e.func.attr) if c is not None else None
+                        if m is not None and not m.is_property:
+                            params = m.params[1:]
+                            args = {m.params[0]: recv}
+                            for k_, v_ in zip(params, pos):
+                                args[k_] = v_
+                            args.update(kw)
+                            from .astutil import default_args as _da
+                            for k_, d_ in _da(m.node).items():
+                                if k_ not in args:
+                                    args[k_] = Const(d_.value) if isinstance(d_, ast.Constant) and not isinstance(d_.value, int) or isinstance(d_, ast.Constant) and isinstance(d_.value, bool) else (IntIv(d_.value, d_.value) if isinstance(d_, ast.Constant) and isinstance(d_.value, int) else Opaque("default"))
+                            for o in self.run(m, args, c.module):
+                                if o.kind == "return":
+                                    out.append((o.value, Path(p.env, p.conds + o.path.conds)))
+                            continue
                     out.append((self.method_call(recv, e.func.attr, pos, kw, e, p), p))
             return out
         for pos, kw, p in eval_args(path):
@@ -839,6 +861,11 @@ class Interp:
                 return Tup([FloatIv(0.0, 1.0), FloatIv(0.0, 1.0), FloatIv(0.0, 1.0)])
             self.hazards.append(f"rgb_to_hls called with components outside [0,1] at line {node.lineno}")
             return Tup([Opaque("h"), Opaque("l"), Opaque("s")])
+        if fname in ("min", "max") and len(pos) > 2:
+            acc = pos[0]
+            for nxt in pos[1:]:
+                acc = self.func_call(fname, [acc, nxt], {}, node, p)
+            return acc
         if fname in ("min", "max") and len(pos) == 2:
             a, b = as_iv(pos[0]), as_iv(pos[1])
             INF = float("inf")
